@@ -222,6 +222,32 @@ def run(F, R, tier):
                     counts["assert_wide"] += 1
                 elif ok:
                     counts["assert_interval"] += 1
+                if not ok:
+                    # per call site: the joined parameter values may have lost the correlation between parameters of a helper
+                    ctxs = M.contexts_of(P, f)
+                    if ctxs:
+                        all_ok = True
+                        for vec in ctxs:
+                            states = M.states_in_context(f, vec)
+                            saved_states = f.in_states
+                            f.in_states = states
+                            try:
+                                st2 = block_state(f, bi)
+                                if st2 is None:
+                                    continue            # the site is dead in this context
+                                vals2 = [f.operand(st2, o)[0] for o in t["ops"]]
+                                ok2, _w = check_assert(f, ak, t, vals2)
+                                if not ok2:
+                                    cv2 = f.operand(st2, t["cond"])[0]
+                                    ok2 = cv2[0] is not None and cv2[0] == cv2[1] == (1 if t["expected"] else 0)
+                            finally:
+                                f.in_states = saved_states
+                            if not ok2:
+                                all_ok = False
+                                break
+                        if all_ok:
+                            ok, why = True, "holds under the parameter values of each of the %d call sites" % len(ctxs)
+                            counts["assert_interval"] += 1
                 rk = RV.get(key) if not ok else None
                 if rk:
                     R.used_reviewed.append({"key": rk, "reason": R.reviewed[rk]["reason"]})
